@@ -179,13 +179,17 @@ class ParseHistories:
     k and n-k share x): every answer must equal the answer of a fresh process. canon = the history."""
 
     def ops(self, hist):
-        return [["pub", e] for e in _hist_encodings()] + [["prv", "%x" % k] for k in (0xC0FFEE, N - 0xC0FFEE)]
+        return [["pub", e] for e in _hist_encodings()] + [["prv", "%x" % k] for k in (0xC0FFEE, N - 0xC0FFEE)] + \
+               [["badprv", "bytes", "c0ffee"], ["badprv", "bytes", "00" * 30 + "c0ffee"], ["badprv", "bytes", "00" * 9 + "%064x" % 0xC0FFEE],
+                ["badprv", "int", str(0xC0FFEE + N)]]
 
     def run(self, hist):
         viols, label = [], "init"
         for n, op in enumerate(hist):
             if op[0] == "pub":
                 o, vs = chk_pub_bytes(bytes.fromhex(op[1]))
+            elif op[0] == "badprv":
+                o, vs = chk_bad_scalar(op[1], op[2])      # another (invalid) spelling of a scalar that may just have been accepted
             else:
                 o, vs = chk_scalar(int(op[1], 16))
             if n == len(hist) - 1:
